@@ -332,6 +332,25 @@ func runPair(ci interface{}, s *vkit.Stats) error {
 			return fmt.Errorf("In.Eval(y) changed from %v to %v (%v) on re-evaluation; %s", ri, r, err, desc())
 		}
 	}
+	// other inputs in between (for interface-typed parameters: of other dynamic types) do not change the answer for y
+	for k := uint64(1); k <= 3; k++ {
+		z := vkit.Value(t, c.Y*7+c.X+k*1000003)
+		if _, err := eval(ex, t, z); err != nil {
+			return fmt.Errorf("Equals(x).Eval(z): %v; z=%s; %s", err, vkit.Describe(z), desc())
+		}
+		if _, err := eval(in, t, z); err != nil {
+			return fmt.Errorf("In(...).Eval(z): %v; z=%s; %s", err, vkit.Describe(z), desc())
+		}
+		if r, err := eval(ex, t, y); err != nil || r != r1 {
+			return fmt.Errorf("Equals(x).Eval(y) changed from %v to %v (%v) after the expression was evaluated on z=%s; %s", r1, r, err, vkit.Describe(z), desc())
+		}
+		if r, err := eval(in, t, y); err != nil || r != ri {
+			return fmt.Errorf("In.Eval(y) changed from %v to %v (%v) after the expression was evaluated on z=%s; %s", ri, r, err, vkit.Describe(z), desc())
+		}
+		if t.Kind() == reflect.Interface && !z.IsNil() && !y.IsNil() && z.Elem().Kind() != y.Elem().Kind() {
+			s.Class("re-evaluated-after-an-input-of-another-dynamic-kind")
+		}
+	}
 	// the same expression object evaluated on inputs that share storage with an earlier input but differ in value:
 	// a prefix of the same slice, the same pointer/map/slice after its contents changed. Each answer must be the one a
 	// freshly built expression gives for that input.
